@@ -25,10 +25,20 @@ impl pl::PlFold for Resolver<'_> {
 
                 let decl = self.root_mod.module.get(&fq_ident).unwrap();
                 let decl_ty = decl.kind.as_ty().ok_or_else(|| {
+                    // Name what was found. `Display` of a declaration dumps its whole content
+                    // with `Debug`, hash containers included, in their iteration order.
+                    let found = match &decl.kind {
+                        DeclKind::Module(_) | DeclKind::LayeredModules(_) => {
+                            format!("module `{fq_ident}`")
+                        }
+                        DeclKind::TableDecl(_) => format!("table `{fq_ident}`"),
+                        DeclKind::Expr(_) => format!("value `{fq_ident}`"),
+                        _ => format!("`{fq_ident}`"),
+                    };
                     Error::new(Reason::Expected {
                         who: None,
                         expected: "a type".to_string(),
-                        found: decl.to_string(),
+                        found,
                     })
                 })?;
                 let mut ty = decl_ty.clone();
